@@ -396,9 +396,11 @@ def _cfg(o, **kw):
 
 
 STAGED_PREFIXES = [[_inst("owner2"), _cfg("owner2", bsei="bsei")], [_inst("owner2"), _cfg("owner2", stsei="stsei")],
-                   [_inst("owner2"), _cfg("owner2", registry="registry", rewards="reward")], [_inst("owner2"), _cfg("owner2", bsei="usr1", dispatcher="dispatcher")]]
+                   [_inst("owner2"), _cfg("owner2", registry="registry", rewards="reward")], [_inst("owner2"), _cfg("owner2", bsei="usr1", dispatcher="dispatcher")],
+                   # a dispatcher instantiated without an stSei reward denom (instantiate does not validate it)
+                   [{"k": "instantiate", "c": "dispatcher", "sender": "owner2", "rate": [0, 50000000, 0], "stdenom": ""}]]
 for _p in ("C10", "C20"):
-    PLANS[_p]["drive"] = PLANS[_p]["drive"] + [dict(name="auth-staged", menu=menu(MENU_AUTH, prefixes=STAGED_PREFIXES, items={"owner_cfg": 14}), runs=(8, 40), len=14, consts=dict(MaxBatch=6, UserFunds=1000))]
+    PLANS[_p]["drive"] = PLANS[_p]["drive"] + [dict(name="auth-staged", menu=menu(MENU_AUTH, prefixes=STAGED_PREFIXES, items={"owner_cfg": 14, "disp_denom": 3}), runs=(10, 40), len=14, consts=dict(MaxBatch=6, UserFunds=1000))]
 for _p in ("C10", "C11", "C20"):
     PLANS[_p]["drive"] = PLANS[_p]["drive"] + [dict(name="auth-half", menu=dict(MENU_AUTH, prefix=HALF_PREFIX), runs=(6, 30), len=18, consts=dict(MaxBatch=6, UserFunds=1000))]
 
